@@ -33,10 +33,10 @@ def showVerdict : Verdict → String
 def parseBool : String → Option Bool
   | "0" => some false | "1" => some true | _ => none
 
-def parseEv (s : String) : Option Ev :=
+def parseEv (fe : FrontEnd) (s : String) : Option Ev :=
   match s.splitOn ":" with
   | ["x", nm, imp, cbp, life, v, lat, defer, nr] => do
-    pure (.express (← parseName nm) (← parseOpt imp) (← parseBool cbp) (← life.toNat?) (← parseVerdict v)
+    pure (.express (← parseName nm) (← parseOpt imp) (← parseBool cbp) (lifeOf fe (← parseOpt life)) (← parseVerdict v)
       (← lat.toNat?) (← defer.toNat?) (← parseBool nr))
   | ["d", nm, dg, d] => do pure (.data (← parseName nm) (← dg.toNat?) (← d.toNat?))
   | ["n", nm, imp, r] => do pure (.nack (← parseName nm) (← parseOpt imp) (← r.toNat?))
@@ -45,11 +45,11 @@ def parseEv (s : String) : Option Ev :=
   | _ => none
 
 /-- `<t>@<ev>+<ev>` → the turn; `<t>@t` → a turn without events -/
-def parseTurn (s : String) : Option Turn :=
+def parseTurn (fe : FrontEnd) (s : String) : Option Turn :=
   match s.splitOn "@" with
   | [t, e] => do
     let t ← t.toNat?
-    if e == "t" then pure ⟨t, []⟩ else pure ⟨t, ← (e.splitOn "+").mapM parseEv⟩
+    if e == "t" then pure ⟨t, []⟩ else pure ⟨t, ← (e.splitOn "+").mapM (parseEv fe)⟩
   | _ => none
 
 def showOutcome : Outcome → String
@@ -92,13 +92,17 @@ def handle (args : List String) : String :=
   match args with
   | [fe, evs] =>
     let fe? : Option FrontEnd := if fe == "v1" then some .v1 else if fe == "v2" then some .v2 else none
-    match fe?, (if evs == "." then some [] else (evs.splitOn ";").mapM parseTurn) with
-    | some fe, some h =>
+    if !tableOk then "bad-table" else
+    match fe? with
+    | none => "bad-op"
+    | some fe =>
+    match (if evs == "." then some [] else (evs.splitOn ";").mapM (parseTurn fe)) with
+    | none => "bad-op"
+    | some h =>
       let (os, σ, S) := runShow fe init [init] h
       let alts := dedup ((S.map (·.sts)).filter (· != σ.sts))
       "ok " ++ (if os.isEmpty then "." else " ".intercalate os) ++ " | " ++ showFinal σ ++ " | " ++
         (if alts.isEmpty then "." else " ; ".intercalate (alts.map showSts))
-    | _, _ => "bad-op"
   | _ => "bad-op"
 
 end Ndn.Drv.C03
